@@ -54,7 +54,7 @@ PROPS = {
                 "evaluated; distinct by source text.",
         "trusted_base": TB_COMMON + [
             "modelled, not verified: stuck_reason is proved complete for the evaluator MODEL (Theorem stuck_classified); that the model is the implementation's evaluator is checked by the C02 correspondence",
-            "hook H1 (feature verif): counter of unresolved holes met by `open`, used only to attribute a failure to the recorded finding D9",
+            "hooks H1 / H3 (feature verif): counters of unresolved holes met by `open` / left below the cutoff by `signed_shift`, used only to attribute a failure to the recorded findings D9 / D19",
         ],
         "assumptions": ["progress as a universal theorem is not claimed (needs confluence with type:type and recursive groups); the property is decided per generated instance",
                         "programs that do not terminate within the per-case time limit are inconclusive"],
@@ -210,7 +210,7 @@ PROPS = {
                 "zonked elaborated term that it finds convertible with the zonked reported type. Non-trivial: accepted; distinct by text.",
         "trusted_base": TB_COMMON + [
             "the validator is Oracle/Infer.v (whnf, convb, infer), proved sound against Spec/Typing.v (infer_sound, convb_sound, whnf_sound); the typing rules themselves (Spec/Typing.v: has_type, conv, red; type : type; holes as opaque type constants) are the specification and are trusted to be the language's rules",
-            "hook H1 (feature verif): counter of unresolved holes met by `open`, used only to attribute a failure to the recorded finding D9",
+            "hooks H1 / H3 (feature verif): counters of unresolved holes met by `open` / left below the cutoff by `signed_shift`, used only to attribute a failure to the recorded findings D9 / D19",
             "modelled, not verified: zonking (replacing a solved hole by its shifted solution) is done by the harness at export",
             "Model B (coq/Model/ModelB.v): store-passing mirror of type_check_rec / unify / normalize_weak_head / open-with-holes, tied to the code by the MB stream (verdict, zonked elaborated term and type with cells numbered by first occurrence)",
         ],
@@ -227,7 +227,7 @@ PROPS = {
                 "type -> a type). Non-trivial: accepted and evaluated to a value; distinct by text.",
         "trusted_base": TB_COMMON + [
             "the validator is Oracle/Infer.v (whnf, convb, infer), proved sound against Spec/Typing.v (infer_sound, convb_sound, whnf_sound); the typing rules themselves (Spec/Typing.v: has_type, conv, red; type : type; holes as opaque type constants) are the specification and are trusted to be the language's rules",
-            "hook H1 (feature verif): counter of unresolved holes met by `open`, used only to attribute a failure to the recorded finding D9",
+            "hooks H1 / H3 (feature verif): counters of unresolved holes met by `open` / left below the cutoff by `signed_shift`, used only to attribute a failure to the recorded findings D9 / D19",
             "modelled, not verified: zonking (replacing a solved hole by its shifted solution) is done by the harness at export",
             "Model B (coq/Model/ModelB.v): store-passing mirror of type_check_rec / unify / normalize_weak_head / open-with-holes, tied to the code by the MB stream (verdict, zonked elaborated term and type with cells numbered by first occurrence)",
         ],
@@ -244,7 +244,7 @@ PROPS = {
                 "source term, cell for cell. Non-trivial: accepted; distinct by text.",
         "trusted_base": TB_COMMON + [
             "the validator is Oracle/Infer.v (whnf, convb, infer), proved sound against Spec/Typing.v (infer_sound, convb_sound, whnf_sound); the typing rules themselves (Spec/Typing.v: has_type, conv, red; type : type; holes as opaque type constants) are the specification and are trusted to be the language's rules",
-            "hook H1 (feature verif): counter of unresolved holes met by `open`, used only to attribute a failure to the recorded finding D9",
+            "hooks H1 / H3 (feature verif): counters of unresolved holes met by `open` / left below the cutoff by `signed_shift`, used only to attribute a failure to the recorded findings D9 / D19",
             "modelled, not verified: zonking (replacing a solved hole by its shifted solution) is done by the harness at export",
             "Model B (coq/Model/ModelB.v): store-passing mirror of type_check_rec / unify / normalize_weak_head / open-with-holes, tied to the code by the MB stream (verdict, zonked elaborated term and type with cells numbered by first occurrence)",
         ],
@@ -277,7 +277,7 @@ PROPS = {
                 "must be restored. Non-trivial: every case; distinct by case text.",
         "trusted_base": TB_COMMON + [
             "validator: Oracle/Infer.v convb (convb_sound); zonking and the cycle / scope checks on the exported store are OCaml glue (ocaml/c12.ml)",
-            "hook H1 (feature verif): attribution of failures to the recorded finding D9",
+            "hooks H1 / H3 (feature verif): attribution of failures to the recorded findings D9 / D19",
         ],
         "assumptions": ["holes are written at top level (home depth 0) in the generated pairs; deeper homes are exercised only through the checker streams (C03, C05)"],
     },
@@ -350,7 +350,7 @@ MANIFEST_TEXT = {
         "text": "Per-instance validation with a proved classifier: every accepted generated program is run; if it is stuck, the proved "
                 "`stuck_reason` (complete taxonomy of stuck terms of the evaluator model, Theorem stuck_classified / outcome_classified) "
                 "names the reason, and any reason other than division by zero is reported with the program as replay. The universal "
-                "progress theorem is not claimed; three genuine violations are recorded as known findings (D7, D9, D14).",
+                "progress theorem is not claimed; four genuine violations are recorded as known findings (D7, D9, D14, D19).",
         "design_ref": "DESIGN.md section 4, C01; section 5",
         "note": "Trusted: Coq kernel, extraction, OCaml driver, harness. Known findings are matched by signature (reason + binder of the stuck variable / hook H1).",
         "technique": "translation validation: implementation run + proved stuck-term classifier (Coq), type-directed program generation",
@@ -390,7 +390,10 @@ MANIFEST_TEXT = {
                 "re-association passes equal a three-line specification - flatten the right spine of unparenthesised nodes of one kind, "
                 "re-associate every operand on its own, fold to the left - so application, `*` `/` and `+` `-` chains are left-associated, "
                 "a parenthesised node is one operand, and the in-order sequence of leaves and operators is unchanged "
-                "(parser_reassociate_spec, parser_tree_wf, reassoc_left / reassoc_paren). Partial proof: completeness of the model (every "
+                "(parser_reassociate_spec, parser_tree_wf, reassoc_left / reassoc_paren); and the tree carries exactly the tokens: its in-order "
+                "content (identifiers incl. binder names, literals, constants, operators, keywords, arrows, colons, braces, terminators - "
+                "all but parentheses) equals the token list's, before and after re-association (parsed_tree_content, "
+                "parser_output_content). Partial proof: completeness of the model (every "
                 "sentence is accepted) and uniqueness of derivations are not theorems.",
         "design_ref": "DESIGN.md section 4, C07",
         "note": "Trusted: Coq kernel, the skeleton/grammar translator, extraction, OCaml driver + Earley oracle, harness.",
@@ -424,7 +427,11 @@ MANIFEST_TEXT = {
                 "proved through the memo table and all 36 parse functions - and check_definitions never meets a shifted hole). Explored on the real code: no panic / abort / hang on all short token sequences, "
                 "token soup, edited grammar sentences, raw bytes and perturbed programs (library, catch_unwind + watchdog), and the exit-"
                 "status / stdout / stderr contract of the release binary on byte strings including invalid UTF-8. Partial: that the parser "
-                "model's fuel always suffices, and panic-freedom of the checker, are not theorems.",
+                "model's fuel always suffices is proved (parse_top_within_fuel); for the checker stage, the typing-context lookup never misses on "
+                "parse() output (checker_lookup_in_bounds) and, under the store-scoping invariant, neither do the normaliser's and the "
+                "unifier's context lookups (unifyB_lookup_in_bounds, whnfB_lookup_in_bounds) - but type_check_rec does not maintain that "
+                "invariant: recorded finding D19, a panic in normalize_weak_head on a well-formed program, found by the proof attempt and "
+                "reproduced inside Coq (C14_lookup_out_of_bounds_D19).",
         "design_ref": "DESIGN.md section 4, C14",
         "note": "Stack exhaustion by syntactic depth beyond the explored sizes is outside the model (named limit D16).",
         "technique": "Coq proofs on the tokenizer/parser models (no panic, non-empty errors) + exhaustive short-input and random robustness runs under process isolation",
@@ -471,14 +478,17 @@ MANIFEST_TEXT = {
         "text": "Translation validation with a PROVED validator: the independent checker for explicitly typed terms (Coq, extracted) is "
                 "proved sound against declarative typing rules (infer_sound; axiom-free). Each program the implementation accepts is "
                 "certified by it at the reported type; a program it cannot certify is reported with the failing program as replay. "
-                "Perturbation streams aim at every unify side condition of the checker. One genuine violation class is a recorded finding (D9).",
+                "Perturbation streams aim at every unify side condition of the checker. Proved of the checker MODEL (Model B, compared with "
+                "type_check case by case): on every hole-free program, acceptance without a diagnostic implies the elaborated term is the "
+                "program and is well typed at a type definitionally equal to the reported one (tcB_sound_hole_free, a simulation up to "
+                "zonking). With holes two genuine violation classes are recorded findings (D9, D19), both reproduced inside Coq.",
         "design_ref": "DESIGN.md section 3.3 and section 4, C03",
-        "note": "Per-instance certificates, not a theorem about type_checker.rs. Failures in programs where hook H1 fired are attributed to D9.",
+        "note": "Per-instance certificates plus a soundness theorem for the checker model on hole-free programs; not a theorem about type_checker.rs. Failures in programs where hook H1 / H3 fired are attributed to D9 / D19.",
         "technique": "translation validation with a Coq-verified type checker (infer_sound) on accepted and perturbed generated programs",
     },
     "C04": {
         "text": "The value the implementation computes is certified by the proved validator at the program's reported type, and its former "
-                "is compared with the type's weak-head normal form. Per-instance; the preservation theorem is not claimed.",
+                "is compared with the type's weak-head normal form. Per-instance; the preservation theorem is not claimed. Recorded findings: D9, D19.",
         "design_ref": "DESIGN.md section 4, C04",
         "note": "As C03.",
         "technique": "translation validation of (value, reported type) pairs with a Coq-verified type checker",
@@ -513,7 +523,9 @@ MANIFEST_TEXT = {
                 "occurs-check (direct and through cells solved earlier) and scope-escape configurations. Proved of Model B (compared with "
                 "the implementation's verdict and store on every case): unification and type checking only extend the store - a recorded "
                 "solution is never changed - the cell unify assigns is unsolved, and the store stays acyclic (no hole is ever solved by a "
-                "term containing itself: unifyB_acyclic, tcB_acyclic, occursB_sound). D9 is a recorded finding.",
+                "term containing itself: unifyB_acyclic, tcB_acyclic, occursB_sound), and - with one home depth per cell and no hole local to "
+                "the term that mentions it - every recorded solution is well scoped where its hole was written (unifyB_solutions_scoped; "
+                "the side condition is necessary and type_check_rec does not maintain it: C12_scoping_refuted_D19). D9 and D19 are recorded findings.",
         "design_ref": "DESIGN.md section 4, C12",
         "note": "Consistency (store only grows) and acyclicity are theorems of Model B; scope is validated on the implementation's own store.",
         "technique": "translation validation of unify results with a Coq-verified conversion test + store scope/acyclicity checks on hole-punched pairs",
@@ -538,9 +550,12 @@ MANIFEST_TEXT = {
                 "wrapped expression (the last through a proved de Bruijn law); name resolution is invariant under every injective renaming of "
                 "identifiers that fixes `_`, e.g. swapping a bound name with a fresh one (scope_spec_rename). All rewrites of the property, and sequences of them, are "
                 "checked as metamorphic relations on the implementation itself for generated programs at random applicable sites "
-                "(acceptance and value). One genuine violation is a recorded finding (D15).",
+                "(acceptance and value). Proved for the verified checker and the evaluator model: the four wrappers - if-true, annotated "
+                "identity, unused definition, naming by a definition - at the root or in head position, chained and undone in any order, "
+                "change neither the set of accepted types nor the outcome (value, stuck reason, divergence): rw_sound. "
+                "Genuine violations are recorded findings (D15; D7 and D9 through reordering).",
         "design_ref": "DESIGN.md section 4, C19",
-        "note": "Partial proof: acceptance-side invariance is decided by the stream.",
+        "note": "Partial proof: acceptance-side invariance of parentheses, reordering and of the implementation's own checker is decided by the stream.",
         "technique": "Coq proofs of the evaluation-side rewrite laws and of renaming invariance of name resolution + metamorphic testing of all rewrites and rewrite sequences on the implementation",
     },
 }
